@@ -336,7 +336,7 @@ pub fn run(ctx: &mut Ctx) {
         ctx.require_class(c);
     }
     let max_depth = ctx.pick(16usize, 64);
-    ctx.prop("random", ctx.pick(20_000, 200_000), case_strategy(max_depth), check);
+    ctx.prop("random", ctx.pick(60_000, 300_000), case_strategy(max_depth), check);
 
     // every depth x every short history length at ratio 1, and the constant check on a grid of x
     let mut cases = Vec::new();
